@@ -200,7 +200,7 @@ class ProxNewton(BaseSolver):
                         print("Early exit")
                     break
 
-            p_obj = datafit.value(y, w, Xw) + penalty.value(w)
+            p_obj = datafit.value(y, w, Xw) + penalty.value(w[:n_features])
             p_objs_out.append(p_obj)
             if _verif.ON:
                 _verif.emit("record", t=t, p_obj=p_obj, w=w, Xw=Xw)
